@@ -76,7 +76,7 @@ class ChainTrees:
     def __init__(self, trees: Iterable[Trees]) -> None:
         super().__init__()
         self.trees = list(trees)
-        self.cumsum = np.cumsum([0] + [len(ts) for ts in trees])
+        self.cumsum = np.cumsum([0] + [len(ts) for ts in self.trees])
 
     def __getitem__(self, key: int, /) -> Tree:
         i, j = 1, len(self.trees)  # cumsum[0] === 0
